@@ -78,6 +78,9 @@ func verifLongArg(name string, n, kind int) Object {
 // nargs arguments of kinds chosen among the first "kinds" argument kinds and
 // asserts totality: a value or an error, no panic, no allocation above the
 // ceiling.
+// VerifArg exports verifArg for module harnesses.
+func VerifArg(name string, kinds int) Object { return verifArg(name, kinds) }
+
 func VerifCallTotal(f Object, nargs, kinds int) {
 	args := make([]Object, nargs)
 	names := [...]string{"a0", "a1", "a2", "a3", "a4"}
@@ -91,6 +94,13 @@ func VerifCallTotal(f Object, nargs, kinds int) {
 		}
 		args[i] = verifArg(names[i], kinds)
 	}
+	VerifCallArgs(f, args)
+}
+
+// VerifCallArgs calls f (both entry points, and the variadic-slot shape) with
+// args and asserts totality.
+func VerifCallArgs(f Object, args []Object) {
+	nargs := len(args)
 	var v Object
 	var err error
 	called := false
